@@ -23,8 +23,32 @@ chaos_fn!(chaos_c07, "C07", |s| s.sends >= 20);
 chaos_fn!(chaos_c08, "C08", |s| s.calls >= 50);
 chaos_fn!(chaos_c09, "C09", |s| s.own_addr_records > 0 || s.identity_changes > 0);
 chaos_fn!(chaos_c10, "C10", |s| s.sends >= 20);
+chaos_fn!(chaos_c11, "C11", |s| s.timers >= 10);
+chaos_fn!(chaos_c12, "C12", |s| s.timers >= 10);
 chaos_fn!(chaos_c13, "C13", |s| s.timers >= 10);
 chaos_fn!(chaos_c19, "C19", |s| s.own_addr_records > 0);
+
+macro_rules! driver_fn {
+    ($name:ident, $id:expr, $int:expr) => {
+        fn $name(ctx: &Ctx, case: u64, acc: &mut Acc) -> Verdict {
+            let st = crate::work::driver::driver_case(ctx, case, acc, Arm::only($id), 300)?;
+            let f: fn(&crate::work::driver::DriverStats) -> bool = $int;
+            if f(&st) {
+                acc.nontrivial(crate::util::fp(&(case, st.calls, st.sends, st.timers, st.identity_changes, st.errors)));
+            }
+            acc.sample(|| serde_json::json!({"workload": "driver", "case": case, "stats": format!("{st:?}")}));
+            Ok(())
+        }
+    };
+}
+driver_fn!(driver_c07, "C07", |s| s.sends >= 20);
+driver_fn!(driver_c08, "C08", |s| s.calls >= 50);
+driver_fn!(driver_c09, "C09", |s| s.own_addr_records > 0 || s.identity_changes > 0);
+driver_fn!(driver_c10, "C10", |s| s.self_updates > 0);
+driver_fn!(driver_c11, "C11", |s| s.timers >= 10);
+driver_fn!(driver_c12, "C12", |s| s.timers >= 10);
+driver_fn!(driver_c13, "C13", |s| s.timers >= 10);
+driver_fn!(driver_c19, "C19", |s| s.own_addr_records > 0);
 
 const ASSUME: &[&str] = &[
     "user-supplied Identity has a total conflict order; Codec/Handler/Runtime do not panic",
@@ -38,7 +62,10 @@ pub fn c07() -> Check {
         rule: "every datagram passed to Runtime::send_to along chaos-net histories (2..=5 real instances, 5 codecs, random legal configs, drops/duplicates/reordering, identity changes, leave/reuse, custom broadcasts) is parsed by an independent grammar parser; datagrams delivered to the exact identity they were handed over for must not be rejected with Decode/MalformedPacket/DataTooBig. Non-trivial: case produced >= 20 datagrams; distinct by case fingerprint.",
         assumptions: ASSUME,
         required: &["chaos_datagrams", "chaos_exact_deliveries"],
-        workloads: vec![Workload { name: "chaos", f: chaos_c07, quick: 3000, thorough: 300_000, flav: Flav::Checked }],
+        workloads: vec![
+            Workload { name: "chaos", f: chaos_c07, quick: 20_000, thorough: 1_000_000, flav: Flav::Checked },
+            Workload { name: "driver", f: driver_c07, quick: 30_000, thorough: 1_500_000, flav: Flav::Checked },
+        ],
         exhaustive: false,
     }
 }
@@ -49,7 +76,10 @@ pub fn c08() -> Check {
         rule: "notification stream replayed against iter_members()/num_members() after every call and against a 3-state connection automaton, over chaos-net histories. Non-trivial: >= 50 calls.",
         assumptions: ASSUME,
         required: &["note/MemberUp", "note/Active"],
-        workloads: vec![Workload { name: "chaos", f: chaos_c08, quick: 3000, thorough: 300_000, flav: Flav::Checked }],
+        workloads: vec![
+            Workload { name: "chaos", f: chaos_c08, quick: 20_000, thorough: 1_000_000, flav: Flav::Checked },
+            Workload { name: "driver", f: driver_c08, quick: 30_000, thorough: 1_500_000, flav: Flav::Checked },
+        ],
         exhaustive: false,
     }
 }
@@ -60,7 +90,10 @@ pub fn c09() -> Check {
         rule: "iter_membership_state() inspected after every call of chaos-net histories: distinct addresses, own address never active, size bounded by addresses presented, identities only replaced by conflict winners with Rename, payload of Down/superseded senders discarded. Non-trivial: an identity changed or a record bearing the own address was held.",
         assumptions: ASSUME,
         required: &["chaos_calls"],
-        workloads: vec![Workload { name: "chaos", f: chaos_c09, quick: 3000, thorough: 300_000, flav: Flav::Checked }],
+        workloads: vec![
+            Workload { name: "chaos", f: chaos_c09, quick: 20_000, thorough: 1_000_000, flav: Flav::Checked },
+            Workload { name: "driver", f: driver_c09, quick: 30_000, thorough: 1_500_000, flav: Flav::Checked },
+        ],
         exhaustive: false,
     }
 }
@@ -71,7 +104,38 @@ pub fn c10() -> Check {
         rule: "header incarnations and update sections of every outgoing datagram checked against a fold of the self-directed updates presented to the instance; reaction to Down(self)/TurnUndead checked. Non-trivial: >= 20 datagrams.",
         assumptions: ASSUME,
         required: &["headers_checked"],
-        workloads: vec![Workload { name: "chaos", f: chaos_c10, quick: 3000, thorough: 300_000, flav: Flav::Checked }],
+        workloads: vec![
+            Workload { name: "chaos", f: chaos_c10, quick: 20_000, thorough: 1_000_000, flav: Flav::Checked },
+            Workload { name: "driver", f: driver_c10, quick: 30_000, thorough: 1_500_000, flav: Flav::Checked },
+        ],
+        exhaustive: false,
+    }
+}
+pub fn c11() -> Check {
+    Check {
+        id: "C11",
+        level: "exploration",
+        rule: "every ChangeSuspectToDown delivery judged against the record seen through iter_membership_state() just before it and the epoch inferred from notifications: effective ones must produce Down + MemberDown + forget-timer + gossip entry (+TurnUndead iff configured), cancelled/stale ones must have no effect at all; Down records tracked for finality. Workloads: chaos net, single-instance driver, enumerated interleaving table. Non-trivial: >= 10 timer deliveries (chaos/driver), every table cell.",
+        assumptions: ASSUME,
+        required: &["timeouts_effective", "timeouts_cancelled", "timeouts_stale_epoch"],
+        workloads: vec![
+            Workload { name: "chaos", f: chaos_c11, quick: 20_000, thorough: 1_000_000, flav: Flav::Checked },
+            Workload { name: "driver", f: driver_c11, quick: 30_000, thorough: 1_500_000, flav: Flav::Checked },
+        ],
+        exhaustive: false,
+    }
+}
+pub fn c12() -> Check {
+    Check {
+        id: "C12",
+        level: "exploration",
+        rule: "probe-round shadow (target, number, helpers asked, evidence accepted) rebuilt from sent/received datagrams and timers; verdict at the next probe timer; responder rules checked on every accepted datagram. Non-trivial: >= 10 timer deliveries.",
+        assumptions: ASSUME,
+        required: &["rounds_started", "rounds_with_evidence", "rounds_without_evidence", "pingreqs_sent"],
+        workloads: vec![
+            Workload { name: "chaos", f: chaos_c12, quick: 20_000, thorough: 1_000_000, flav: Flav::Checked },
+            Workload { name: "driver", f: driver_c12, quick: 30_000, thorough: 1_500_000, flav: Flav::Checked },
+        ],
         exhaustive: false,
     }
 }
@@ -82,7 +146,10 @@ pub fn c13() -> Check {
         rule: "multiset of outstanding timers tracked from submit_after and deliveries; exactly-one probe/periodic timer per active epoch; stale timers must have no effect. Non-trivial: >= 10 timer deliveries.",
         assumptions: ASSUME,
         required: &["timers_delivered", "epochs_started"],
-        workloads: vec![Workload { name: "chaos", f: chaos_c13, quick: 3000, thorough: 300_000, flav: Flav::Checked }],
+        workloads: vec![
+            Workload { name: "chaos", f: chaos_c13, quick: 20_000, thorough: 1_000_000, flav: Flav::Checked },
+            Workload { name: "driver", f: driver_c13, quick: 30_000, thorough: 1_500_000, flav: Flav::Checked },
+        ],
         exhaustive: false,
     }
 }
@@ -93,7 +160,10 @@ pub fn c19() -> Check {
         rule: "destination of every send_to compared with the instance's own address along chaos-net histories with renewals, restarts and echoes of own past identities. Non-trivial: the instance held a record bearing its own address at some point.",
         assumptions: ASSUME,
         required: &["destinations_checked"],
-        workloads: vec![Workload { name: "chaos", f: chaos_c19, quick: 3000, thorough: 300_000, flav: Flav::Checked }],
+        workloads: vec![
+            Workload { name: "chaos", f: chaos_c19, quick: 20_000, thorough: 1_000_000, flav: Flav::Checked },
+            Workload { name: "driver", f: driver_c19, quick: 30_000, thorough: 1_500_000, flav: Flav::Checked },
+        ],
         exhaustive: false,
     }
 }
